@@ -43,6 +43,9 @@ type plannedSet struct {
 }
 
 func Run(c *hx.Ctx) error {
+	if sc := c.Arg("script", ""); sc != "" {
+		return replayScript(c, sc)
+	}
 	n := c.Budget(240, 12000)
 	perSet := 12
 	if c.Tier == "thorough" {
@@ -138,8 +141,8 @@ func Run(c *hx.Ctx) error {
 				avoid := ps.rng.Chance(80)
 				q := g.genQuery(avoid)
 				want := ps.up.query(q)
-				for tries := 0; avoid && tries < 4 && (want.err != "" || dupSignatureOverRange(ps, q, nil)); tries++ {
-					q = g.genQuery(true)
+				for tries := 0; tries < 6 && ((avoid && (want.err != "" || dupSignatureOverRange(ps, q, nil))) || hasTopkTie(ps, q)); tries++ {
+					q = g.genQuery(avoid)
 					want = ps.up.query(q)
 				}
 				if avoid {
@@ -322,7 +325,18 @@ func topKind(e expr) string {
 	case *aggExpr:
 		return "agg:" + n.op
 	case *binExpr:
+		if n.group != "" {
+			return "bin-group_" + n.group
+		}
 		return "bin:" + n.op
+	case *setExpr:
+		return "set:" + n.op
+	case *kaggExpr:
+		return "agg:" + n.op
+	case *tsExpr:
+		return "timestamp"
+	case *subqExpr:
+		return "subquery:" + n.fn
 	}
 	return "other"
 }
@@ -373,6 +387,10 @@ func relevantSamples(set *sampleSet, q *query, maxSeries int) string {
 		case *rangeFn:
 			if n.rng > maxRng {
 				maxRng = n.rng
+			}
+		case *subqExpr:
+			if n.rng+n.off > maxRng {
+				maxRng = n.rng + n.off
 			}
 		}
 	})
